@@ -77,6 +77,12 @@ SpecTabOK     == (CFg /\ c = InitCfg) =>
                     /\ r.status = e.status /\ r.pos = e.pos
                     /\ r.status = "accept" => SoundCfg(G(g), input, r)
 C06_NoDiverge == CFg => c.status # "diverge"
+\* C04 at behaviour level: on a grammar whose conflicts are all decided by the
+\* rules of C04, the recorded table parses every input exactly as the
+\* specification's table (built with CellAct) does: same outcome, same
+\* reductions, same number of tokens fetched.
+C04_Behaviour == (Tabs[g].spec.decided /\ ~CFg /\ c.status # "run" /\ Ref.status # "diverge") =>
+                    (c.status = Ref.status /\ c.reds = Ref.reds /\ c.pos = Ref.pos)
 Terminates    == <>(c.status # "run")
 
 \* Oracle self-check: Earley membership = membership in the bounded language
@@ -91,5 +97,5 @@ OracleOK ==
 \* one line per grammar for the evidence file (evaluated on the empty input's
 \* initial state; always true)
 Report == (c = InitCfg /\ input = <<>>) =>
-            PrintT(<<"GRAMMAR", g, Tabs[g].spec.conflictfree, Cardinality(Inputs(g)), Tabs[g].spec.nstates>>)
+            PrintT(<<"GRAMMAR", g, Tabs[g].spec.conflictfree, Cardinality(Inputs(g)), Tabs[g].spec.nstates, Tabs[g].spec.decided>>)
 =============================================================================
